@@ -366,6 +366,51 @@ func Explore(build func() []Thread, maxPreempt, maxSteps, limit int, visit func(
 	return count
 }
 
+// ExploreBFS enumerates schedules breadth-first by number of deviations from the default
+// (non-pre-emptive) policy: first the default schedule, then every schedule with one forced switch,
+// then two, ... up to maxPre pre-emptions and at most limit runs. run must execute the program from
+// scratch following the given prefix of thread choices; base is a prefix that is never deviated from
+// (a sequential set-up phase). visit sees every result.
+func ExploreBFS(run func(prefix []int) Result, base []int, maxPre, limit int, visit func(r Result)) int {
+	type node struct{ prefix []int }
+	queue := []node{{base}}
+	count := 0
+	for len(queue) > 0 && count < limit {
+		n := queue[0]
+		queue = queue[1:]
+		r := run(n.prefix)
+		count++
+		visit(r)
+		for j := len(n.prefix); j < len(r.Chosen); j++ {
+			if j < len(base) {
+				continue
+			}
+			pre := 0
+			for i := len(base) + 1; i < j; i++ {
+				if r.Chosen[i] != r.Chosen[i-1] && contains(r.Enabled[i], r.Chosen[i-1]) {
+					pre++
+				}
+			}
+			for _, alt := range r.Enabled[j] {
+				if alt == r.Chosen[j] {
+					continue
+				}
+				p := pre
+				if j > len(base) && contains(r.Enabled[j], r.Chosen[j-1]) && alt != r.Chosen[j-1] {
+					p++
+				}
+				if p > maxPre {
+					continue
+				}
+				if len(queue)+count < 4*limit { // bound the frontier
+					queue = append(queue, node{append(append([]int{}, r.Chosen[:j]...), alt)})
+				}
+			}
+		}
+	}
+	return count
+}
+
 func contains(s []int, x int) bool {
 	for _, v := range s {
 		if v == x {
